@@ -28,10 +28,12 @@ TECHNIQUE = "Coq proof over an executable model (refinement loop = per-marker mo
 RULE = ("case = (protocol | mat_/dense_ function, genotype array, xoprob, xconfig, counts, nself, counters, metadata, scripted uniform pool); one PRNG; "
         "taxa 1..8, markers 1..24 in 1..3 chromosomes, int8 alleles incl. -128/127, xoprob from {0,2^-10,1/4,1/2,1-2^-10,1} and random k/2^10, "
         "draws biased to the comparison boundary (u = p and u = p - 2^-10), crosses 0..4 with selfs and repeated parents, scalar and array counts incl. 0, "
-        "nself 0..3; plus provenance cases with real PCG64 draws and real-valued probabilities (small ones also evaluated in Coq on the exact rationals of the binary64 draws) and exhaustive crossover patterns; non-trivial = two founders of a cross "
+        "nself 0..3; plus predicate-only large cases (real PCG64, founder copies coded 2f+c+1, output run-length coded: more than 2^22 uniforms in one mat_meiosis/dense_meiosis call "
+        "in the quick tier for a non-DH and a DH protocol, every protocol and 2^16..2^20 in thorough); plus provenance cases with real PCG64 draws and real-valued probabilities (small ones also evaluated in Coq on the exact rationals of the binary64 draws) and exhaustive crossover patterns; non-trivial = two founders of a cross "
         "row differ at a marker and at least one scripted crossover fires; distinct by SHA-256 of the case")
 TRUSTED = ["rngscript.Scripted subclass handing out the case's uniform pool in request order (shapes and ranges requested are logged and compared)",
            "integer codes of strings/floats used to compare metadata arrays are injective (bytes of the value)"]
+SEARCH_MAX = 1600
 ASSUMPTIONS = ["parent indices in xconfig are 0 <= i (an index >= ntaxa is modelled as the IndexError it raises; negative numpy wrap-around indices are not modelled)",
                "nmating, nprogeny, nself >= 0; progeny_counter >= 0",
                "genotype array has two phases, int8; vrnt_xoprob has one entry per marker"]
@@ -45,7 +47,7 @@ DEN = 1024
 XOSET = [0, 1, 256, 512, 1023, 1024]
 META_KEYS = ["vrnt_chrgrp", "vrnt_phypos", "vrnt_name", "vrnt_genpos", "vrnt_xoprob", "vrnt_hapgrp", "vrnt_hapalt", "vrnt_hapref", "vrnt_mask",
              "vrnt_chrgrp_name", "vrnt_chrgrp_stix", "vrnt_chrgrp_spix", "vrnt_chrgrp_len"]
-F_HAP = "C01-hap-alleles-dropped"
+F_HAP = "C01-hap-alleles-dropped"          # repaired in /repo 79a4ba88: kept as a fixed entry (witness re-run on every check)
 F_NAME = "C01-name-width-order"
 
 # ------------------------------------------------------------------ scripted generator carving one flat pool
@@ -66,14 +68,14 @@ class Pool(Scripted):
 
 class Real(Scripted):
     """real PCG64 draws, logged"""
-    def __init__(self, seed):
+    def __init__(self, seed, keep=True):
         super().__init__()
-        self.g = numpy.random.Generator(numpy.random.PCG64(seed)); self.shapes = []; self.ranges = []; self.drawn = []
+        self.g = numpy.random.Generator(numpy.random.PCG64(seed)); self.shapes = []; self.ranges = []; self.drawn = []; self.keep = keep
     def uniform(self, low=0.0, high=1.0, size=None):
         shape = () if size is None else ((int(size),) if isinstance(size, (int, numpy.integer)) else tuple(int(x) for x in size))
         self.shapes.append(list(shape)); self.ranges.append([float(low), float(high)])
         a = self.g.uniform(low, high, size)
-        self.drawn.append(numpy.asarray(a).tolist())
+        if self.keep: self.drawn.append(numpy.asarray(a).tolist())
         return a
 
 # ------------------------------------------------------------------ generators
@@ -168,7 +170,7 @@ def _proto_case(rng, proto, tier, opts=None):
     pc = rng.choice([0, 0, 1, 7, 42, 123456, 9999990 - rng.randint(0, 50)]); fc = rng.choice([0, 0, 1, 5, -3, 1000, 2 ** 40])
     nm = [nmating] * ncross if isinstance(nmating, int) else nmating
     np_ = [nprogeny] * ncross if isinstance(nprogeny, int) else nprogeny
-    hap = rng.random() < 0.1
+    hap = rng.random() < 0.3
     case = {"kind": "proto", "proto": proto, "geno": geno, "xoprob": xoprob, "xconfig": xc, "nmating": nmating, "nprogeny": nprogeny,
             "nself": nself, "pc": pc, "fc": fc, "meta": _meta(rng, p, set(starts), hap)}
     if rng.random() < 0.15: case["np_scalar"] = True          # Integral counts given as numpy.int64 scalars
@@ -227,6 +229,49 @@ def _real_case(rng, proto):
     c["pc"] = rng.choice([0, 5, 1000])
     return c
 
+NONE_META = {"vrnt_chrgrp": None, "vrnt_phypos": None, "vrnt_name": None, "vrnt_genpos": None, "vrnt_hapgrp": None, "vrnt_hapalt": None,
+             "vrnt_hapref": None, "vrnt_mask": None, "group_vrnt": False, "taxa": False}
+BIG_XC = {1: [[0], [2]], 2: [[0, 1], [2, 3]], 3: [[0, 1, 2], [3, 0, 1]], 4: [[0, 1, 2, 3], [2, 3, 0, 1]]}
+RLE_CAP = 200
+
+def _big_geno(n, p):
+    """founder f, chromosome copy c carries the allele code 2f+c+1 at every marker: a progeny chromosome spells out its provenance"""
+    return [[[2 * f + c + 1] * p for f in range(n)] for c in range(2)]
+
+def _big_xoprob(rng, p, npos):
+    xo = [0.0] * p
+    xo[0] = rng.choice([0.5, 0.0])
+    for j in rng.sample(range(1, p), min(npos, p - 1)): xo[j] = rng.choice([0.5, 0.25, 0.1, 0.03])
+    return xo
+
+def _big_case(rng, proto, p, nprog, nself=0):
+    """size-dependent code paths: one mat_meiosis call draws 2*nprog*p uniforms (real PCG64; predicate only, output run-length coded)"""
+    xo = _big_xoprob(rng, p, rng.randint(8, 30))
+    return {"kind": "proto", "proto": proto, "big": True, "geno": _big_geno(4, p), "xoprob": [512 if x > 0 else 0 for x in xo], "xoprob_f": xo,
+            "xconfig": [list(r) for r in BIG_XC[NPAR[proto]]], "nmating": 1, "nprogeny": nprog, "nself": nself, "pc": rng.choice([0, 1000]),
+            "fc": rng.choice([0, 7]), "meta": dict(NONE_META), "real_rng": rng.randrange(2 ** 31), "pool": []}
+
+def _big_util_case(rng, module, p, k):
+    xo = _big_xoprob(rng, p, rng.randint(8, 30))
+    return {"kind": "util", "module": module, "fn": "meiosis", "big": True, "geno": _big_geno(4, p), "xoprob": [512 if x > 0 else 0 for x in xo],
+            "xoprob_f": xo, "sel": [rng.randrange(4) for _ in range(k)], "real_rng": rng.randrange(2 ** 31), "pool": []}
+
+def _big_cases(rng, tier):
+    out = []
+    # > 2^22 uniforms in ONE mat_meiosis call: 1200 gametes x 4096 markers
+    for proto in (["TwoWayCross", "TwoWayDHCross"] if tier == "quick" else PROTOS):
+        out.append(_big_case(rng, proto, 4096, 600))
+    for module in ("mat", "dense"):
+        out.append(_big_util_case(rng, module, 4096, 1100))
+    if tier != "quick":
+        for proto in PROTOS:                      # 2^16 .. 2^20 uniforms per call
+            out.append(_big_case(rng, proto, 256, rng.randint(128, 1024), rng.choice([0, 1])))
+            out.append(_big_case(rng, proto, 1024, rng.randint(32, 500), rng.choice([0, 1])))
+            out.append(_big_case(rng, proto, 2048, rng.randint(16, 250), 0))
+        for module in ("mat", "dense"):
+            out.append(_big_util_case(rng, module, 512, rng.randint(128, 2000)))
+    return out
+
 def gen_cases(rng, tier):
     cases = []
     quick = tier == "quick"
@@ -246,6 +291,7 @@ def gen_cases(rng, tier):
                 cases.append(_util_case(rng, module, fn, tier))
         for m in (range(1, 6) if quick else range(1, 9)):
             cases.append(_sweep_case(module, m))
+    cases += _big_cases(rng, tier)                # last: they are the slow ones
     return cases
 
 def search_cases(rng):
@@ -304,7 +350,7 @@ def _run_proto(case):
         if isinstance(nm, int): nm = numpy.int64(nm)
         if isinstance(np_, int): np_ = numpy.int64(np_)
     args_before = (_snap(xc), _snap(nm) if not isinstance(nm, int) else None, _snap(np_) if not isinstance(np_, int) else None)
-    rng = Real(case["real_rng"]) if case.get("real_rng") is not None else Pool(case["pool"])
+    rng = Real(case["real_rng"], keep=not case.get("big")) if case.get("real_rng") is not None else Pool(case["pool"])
     prot = cls(progeny_counter=case["pc"], family_counter=case["fc"], rng=rng)
     out = {"meta_in": meta_in, "meta_in_dtype": meta_in_dt}
     try:
@@ -318,10 +364,15 @@ def _run_proto(case):
     out["shapes"] = rng.shapes; out["ranges_ok"] = all(r == [0.0, 1.0] for r in rng.ranges)
     out["unchanged"] = [k for k in PG_FIELDS if _snap(getattr(g, k)) != before[k]]
     out["args_unchanged"] = (_snap(xc), _snap(nm) if not isinstance(nm, int) else None, _snap(np_) if not isinstance(np_, int) else None) == args_before
-    if isinstance(rng, Real): out["drawn"] = rng.drawn
+    if isinstance(rng, Real) and not case.get("big"): out["drawn"] = rng.drawn
     if res is not None:
         out["cls"] = type(res).__name__
-        out["mat"] = res.mat.tolist(); out["mat_dtype"] = str(res.mat.dtype); out["mat_shape"] = list(res.mat.shape)
+        out["mat_dtype"] = str(res.mat.dtype); out["mat_shape"] = list(res.mat.shape)
+        if case.get("big"):
+            out["rle"], out["nseg"] = _rle(res.mat)
+            out["dh_equal"] = bool(res.mat.shape[0] == 2 and numpy.array_equal(res.mat[0], res.mat[1]))
+        else:
+            out["mat"] = res.mat.tolist()
         out["taxa"] = _tolist(res.taxa); out["taxa_dtype"] = None if res.taxa is None else str(res.taxa.dtype)
         out["taxa_grp"] = _tolist(res.taxa_grp); out["taxa_grp_dtype"] = None if res.taxa_grp is None else str(res.taxa_grp.dtype)
         for k in ("taxa_grp_name", "taxa_grp_stix", "taxa_grp_spix", "taxa_grp_len"):
@@ -330,6 +381,19 @@ def _run_proto(case):
         out["meta_dtype"] = {k: (None if getattr(res, k) is None else str(numpy.asarray(getattr(res, k)).dtype)) for k in META_KEYS}
     return out
 
+def _rle(a):
+    """lossless run-length code of every row of the last axis: [[start, value], ...] (first RLE_CAP runs) and the number of runs"""
+    a = numpy.asarray(a)
+    if a.ndim == 3:
+        r = [_rle(x) for x in a]
+        return [x[0] for x in r], [x[1] for x in r]
+    runs, nseg = [], []
+    ch = a[:, 1:] != a[:, :-1]
+    for k in range(a.shape[0]):
+        st = [0] + (numpy.flatnonzero(ch[k]) + 1).tolist() if a.shape[1] else []
+        nseg.append(len(st)); runs.append([[j, int(a[k, j])] for j in st[:RLE_CAP]])
+    return runs, nseg
+
 def _run_util(case):
     import importlib
     if case["module"] == "mat":
@@ -337,9 +401,10 @@ def _run_util(case):
     else:
         mod = importlib.import_module("pybrops.core.util.mate"); names = {"meiosis": "dense_meiosis", "dh": "dense_dh", "mate": "dense_cross"}
     f = getattr(mod, names[case["fn"]])
-    geno = numpy.array(case["geno"], dtype="int8"); xo = numpy.array(case["xoprob"], dtype=float) / DEN
+    geno = numpy.array(case["geno"], dtype="int8")
+    xo = numpy.array(case["xoprob_f"], dtype=float) if "xoprob_f" in case else numpy.array(case["xoprob"], dtype=float) / DEN
     sel = numpy.array(case["sel"], dtype="int64")
-    rng = Pool(case["pool"])
+    rng = Real(case["real_rng"], keep=False) if case.get("real_rng") is not None else Pool(case["pool"])
     b = [_snap(geno), _snap(xo), _snap(sel)]
     if case["fn"] == "mate":
         geno2 = numpy.array(case["geno2"], dtype="int8"); sel2 = numpy.array(case["sel2"], dtype="int64")
@@ -349,8 +414,11 @@ def _run_util(case):
     else:
         res = f(geno, sel, xo, rng)
         a = [_snap(geno), _snap(xo), _snap(sel)]
-    return {"res": res.tolist(), "dtype": str(res.dtype), "shape": list(res.shape), "shapes": rng.shapes,
-            "ranges_ok": all(r == [0.0, 1.0] for r in rng.ranges), "unchanged": a == b}
+    out = {"dtype": str(res.dtype), "shape": list(res.shape), "shapes": rng.shapes,
+           "ranges_ok": all(r == [0.0, 1.0] for r in rng.ranges), "unchanged": a == b}
+    if case.get("big"): out["rle"], out["nseg"] = _rle(res)
+    else: out["res"] = res.tolist()
+    return out
 
 def run_impl(case):
     return _run_proto(case) if case["kind"] == "proto" else _run_util(case)
@@ -387,32 +455,47 @@ def _meta_term(d): return "(mkMeta %s)" % " ".join(_code_field(k, d[k]) for k in
 def _count(c): return "(inl %d%%nat)" % c if isinstance(c, int) else "(inr %s)" % Nl(c)
 def _shapes(sh): return "[" + ";".join("(%d,%d)" % (a, b) for a, b in sh) + "]%nat"
 
+def _consumed(pool, shapes):
+    n = 0
+    for sh in shapes:
+        k = 1
+        for d in sh: k *= d
+        n += k
+    return pool[:n]
+
 def emit_case(case, out):
+    if case.get("big"):
+        return None                                      # size-dependent paths: predicate only
     if "exc" in out:
         return "false"
     if case["kind"] == "util":
-        draws = _carve(case["pool"], out["shapes"])
-        r0 = "(rng0 (q10lll %s))" % Zl3(draws)
+        if any(len(sh) != 2 for sh in out["shapes"]): return "false"
+        P = "(q10l %s)" % Zl(_consumed(case["pool"], out["shapes"]))
         G, S, X = Zl3(case["geno"]), Nl(case["sel"]), "(q10l %s)" % Zl(case["xoprob"])
+        I = "(nz_shapes %s)" % _shapes(out["shapes"])
         if case["fn"] == "meiosis":
-            return ("(let m := mat_meiosis %s %s %s %s in zll_eqb (fst m) %s && zll_eqb (mat_meiosis_seg %s %s %s %s) %s && shapes_eqb (reqs (snd m)) %s)"
-                    % (G, S, X, r0, Zl2(out["res"]), G, S, X, r0, Zl2(out["res"]), _shapes(out["shapes"])))
+            return ("(let sh := reqs (snd (mat_meiosis %s %s %s (rng0 []))) in let r0 := rng0 (carve %s sh) in let m := mat_meiosis %s %s %s r0 in "
+                    "zll_eqb (fst m) %s && zll_eqb (mat_meiosis_seg %s %s %s r0) %s && shapes_eqb (nz_shapes sh) %s)"
+                    % (G, S, X, P, G, S, X, Zl2(out["res"]), G, S, X, Zl2(out["res"]), I))
         if case["fn"] == "dh":
-            return "(let m := mat_dh %s %s %s %s in zlll_eqb (fst m) %s && shapes_eqb (reqs (snd m)) %s)" % (G, S, X, r0, Zl3(out["res"]), _shapes(out["shapes"]))
-        return ("(let m := mat_mate %s %s %s %s %s %s in zlll_eqb (fst m) %s && shapes_eqb (reqs (snd m)) %s)"
-                % (G, Zl3(case["geno2"]), S, Nl(case["sel2"]), X, r0, Zl3(out["res"]), _shapes(out["shapes"])))
+            return ("(let sh := reqs (snd (mat_dh %s %s %s (rng0 []))) in let m := mat_dh %s %s %s (rng0 (carve %s sh)) in "
+                    "zlll_eqb (fst m) %s && shapes_eqb (nz_shapes sh) %s)" % (G, S, X, G, S, X, P, Zl3(out["res"]), I))
+        G2, S2 = Zl3(case["geno2"]), Nl(case["sel2"])
+        return ("(let sh := reqs (snd (mat_mate %s %s %s %s %s (rng0 []))) in let m := mat_mate %s %s %s %s %s (rng0 (carve %s sh)) in "
+                "zlll_eqb (fst m) %s && shapes_eqb (nz_shapes sh) %s)" % (G, G2, S, S2, X, G, G2, S, S2, X, P, Zl3(out["res"]), I))
     xc = case["xconfig"]
     if case.get("real_rng") is not None:
         # real PCG64 draws and real probabilities: shipped as the exact rationals of the binary64 values
         if len(case["geno"][0]) * len(case["xoprob"]) > 60 or sum(len(m) for m in out.get("drawn", [])) > 60:
             return None                                  # large provenance cases stay predicate-only
         Q = lambda v: E.q(Fraction(float(v)))
-        xoq = E.lst(case["xoprob_f"], Q); dq = E.lst3(out["drawn"], Q)
+        xoq = E.lst(case["xoprob_f"], Q); pq = E.lst([u for m in out["drawn"] for r in m for u in r], Q)
     else:
-        xoq = "(q10l %s)" % Zl(case["xoprob"]); dq = "(q10lll %s)" % Zl3(_carve(case["pool"], out["shapes"]))
-    call = ("(mate %s %s %s %s %s %s %s %d%%nat %s %s %s)"
+        if any(len(sh) != 2 for sh in out["shapes"]): return "false"
+        xoq = "(q10l %s)" % Zl(case["xoprob"]); pq = "(q10l %s)" % Zl(_consumed(case["pool"], out["shapes"]))
+    call = ("(mate_pool %s %s %s %s %s %s %s %d%%nat %s %s %s)"
             % (COQP[case["proto"]], Zl3(case["geno"]), xoq, _meta_term(out["meta_in"]),
-               Nl2(xc) if xc else "[]", _count(case["nmating"]), _count(case["nprogeny"]), case["nself"], E.z(case["pc"]), E.z(case["fc"]), dq))
+               Nl2(xc) if xc else "[]", _count(case["nmating"]), _count(case["nprogeny"]), case["nself"], E.z(case["pc"]), E.z(case["fc"]), pq))
     if "error" in out:
         return "(agree_mate %s None)" % call
     names = [[ord(ch) for ch in s] for s in out["taxa"]]
@@ -535,6 +618,21 @@ def _reference(case):
         return selfs(_ref_mate(ab, cd, _rep(list(range(len(ab))), npr), _rep(list(range(len(cd))), npr), xo, take))
     return dh(selfs(_ref_mate(ab, cd, list(range(len(ab))), list(range(len(cd))), xo, take)), npr)
 
+def _rle_clauses(runs, nseg, src, first_leaf, allowed, code_of, xopos, who):
+    """provenance of one run-length coded chromosome copy whose allele codes identify (founder, copy)"""
+    npos = sum(1 for x in xopos if x)
+    if nseg > npos + 1:
+        return ["%s: %d segments, but only %d markers have xoprob > 0" % (who, nseg, npos)]
+    for (j, code) in runs:
+        if code not in allowed:
+            return ["%s: allele code %d from marker %d is not a chromosome copy of the designated parents %s"
+                    % (who, code, j, sorted(set(f for f, _ in src)))]
+        if j > 0 and not xopos[j]:
+            return ["%s: source copy changes at marker %d where xoprob == 0" % (who, j)]
+        if j == 0 and not xopos[0] and code != code_of[first_leaf]:
+            return ["%s: starts in allele code %d although xoprob[0] == 0 (must start in copy 0 of the designated parent)" % (who, code)]
+    return []
+
 def _pred_proto(case, out):
     bad = []
     valid = _valid(case)
@@ -549,7 +647,11 @@ def _pred_proto(case, out):
     xopos = [x > 0 for x in (case.get("xoprob_f") or case["xoprob"])]
     tot = [a * b for a, b in zip(nm, np_)]; N = sum(tot)
     cross_of = _rep(list(range(len(xc))), tot)
-    mat = out["mat"]
+    big = bool(case.get("big")); mat = out.get("mat")
+    if big:
+        code_of = {(f, c): geno[c][f][0] for c in (0, 1) for f in range(len(geno[0]))}
+        if len(set(code_of.values())) != len(code_of) or any(len(set(geno[c][f])) != 1 for c in (0, 1) for f in range(len(geno[0]))):
+            return ["harness: large case without provenance coding"]
     if out["cls"] != "DensePhasedGenotypeMatrix": bad.append("result is a %s" % out["cls"])
     if out["mat_shape"] != [2, N, p]: return bad + ["progeny matrix has shape %s, expected [2, sum(nmating*nprogeny) = %d, %d]" % (out["mat_shape"], N, p)]
     if out["mat_dtype"] != "int8": bad.append("progeny matrix dtype %s" % out["mat_dtype"])
@@ -578,10 +680,16 @@ def _pred_proto(case, out):
         k = byname[nm_]
         ped = _ped(proto, xc[cross_of[k]], case["nself"])
         s0, s1 = _sides(ped)
-        bad += _mosaic_clauses(mat[0][pos_], s0, geno, xopos, "progeny %s copy 0" % nm_)
-        bad += _mosaic_clauses(mat[1][pos_], s1, geno, xopos, "progeny %s copy 1" % nm_)
+        if big:
+            for c, sd in ((0, s0), (1, s1)):
+                lv = _gamete_leaves(sd)
+                bad += _rle_clauses(out["rle"][c][pos_], out["nseg"][c][pos_], lv, _first_leaf(sd), {code_of[l] for l in lv}, code_of, xopos,
+                                    "progeny %s (row %d, cross %d) copy %d" % (nm_, pos_, cross_of[k], c))
+        else:
+            bad += _mosaic_clauses(mat[0][pos_], s0, geno, xopos, "progeny %s copy 0" % nm_)
+            bad += _mosaic_clauses(mat[1][pos_], s1, geno, xopos, "progeny %s copy 1" % nm_)
         if len(bad) > 6: break
-    if proto.endswith("DHCross") and mat[0] != mat[1]: bad.append("doubled-haploid progeny are not homozygous")
+    if proto.endswith("DHCross") and not (out["dh_equal"] if big else mat[0] == mat[1]): bad.append("doubled-haploid progeny are not homozygous")
     # draw-for-draw reference (scripted cases)
     if case.get("real_rng") is None:
         try:
@@ -616,10 +724,21 @@ def _phase_path_ok(g, c0, c1, xopos):
 
 def _pred_util(case, out):
     bad = []
-    fn = case["fn"]; p = len(case["xoprob"]); k = len(case["sel"]); xopos = [x > 0 for x in case["xoprob"]]
+    fn = case["fn"]; p = len(case["xoprob"]); k = len(case["sel"]); xopos = [x > 0 for x in (case.get("xoprob_f") or case["xoprob"])]
     want_shape = [k, p] if fn == "meiosis" else [2, k, p]
     if out["shape"] != want_shape: return ["result shape %s, expected %s" % (out["shape"], want_shape)]
     if out["dtype"] != "int8": bad.append("result dtype %s" % out["dtype"])
+    if case.get("big"):                                  # meiosis only: provenance from the run-length coded gametes
+        G = case["geno"]; code_of = {(f, c): G[c][f][0] for c in (0, 1) for f in range(len(G[0]))}
+        for i, sidx in enumerate(case["sel"]):
+            lv = {(sidx, 0), (sidx, 1)}
+            bad += _rle_clauses(out["rle"][i], out["nseg"][i], lv, (sidx, 0), {code_of[l] for l in lv}, code_of, xopos, "gamete %d (individual %d)" % (i, sidx))
+            if len(bad) > 4: break
+        if any(len(sh) != 2 or sh[1] != p for sh in out["shapes"]) or sum(sh[0] for sh in out["shapes"] if len(sh) == 2) != k:
+            bad.append("uniform requests %s do not add up to (%d, %d)" % (out["shapes"][:4], k, p))
+        if not out["ranges_ok"]: bad.append("uniform draws requested outside [0,1)")
+        if not out["unchanged"]: bad.append("an input array was modified")
+        return bad
     res = out["res"]; layers = [res] if fn == "meiosis" else res
     srcs = [(case["geno"], case["sel"])] if fn == "meiosis" else ([(case["geno"], case["sel"])] * 2 if fn == "dh" else
                                                                   [(case["geno"], case["sel"]), (case["geno2"], case["sel2"])])
@@ -635,7 +754,8 @@ def _pred_util(case, out):
         if layer != ref: bad.append("layer %d differs from the per-marker specification on the same draws" % li)
     if fn == "dh" and res[0] != res[1]: bad.append("doubled haploid not homozygous")
     nreq = 2 if fn == "mate" else 1
-    if out["shapes"] != [[k, p]] * nreq: bad.append("uniform requests %s, expected %s" % (out["shapes"], [[k, p]] * nreq))
+    if [sh for sh in out["shapes"] if sh[:1] != [0]] != [sh for sh in [[k, p]] * nreq if sh[0]]:
+        bad.append("uniform requests %s, expected %s" % (out["shapes"], [[k, p]] * nreq))
     if not out["ranges_ok"]: bad.append("uniform draws requested outside [0,1)")
     if not out["unchanged"]: bad.append("an input array was modified")
     return bad
@@ -650,24 +770,20 @@ def pred(case, out):
     return seen[:8]
 
 def classify(case, out, clauses):
-    """a failure belongs to a known finding only if *every* clause is explained by a finding whose input pattern is present"""
+    """a failure belongs to the known finding only if *every* clause is explained by it and its input pattern is present"""
     if case["kind"] != "proto" or not clauses: return None
-    m = case["meta"]
-    hap_in = m.get("vrnt_hapalt") is not None or m.get("vrnt_hapref") is not None
     nm, np_ = _counts(case)
-    name_in = False
-    if len(nm) == len(case["xconfig"]) == len(np_):
-        N = sum(a * b for a, b in zip(nm, np_))
-        name_in = 0 <= case["pc"] < 10 ** 7 <= case["pc"] + N - 1
-    hit = []
-    for c in clauses:
-        if hap_in and (c.startswith("marker metadata vrnt_hapalt not carried") or c.startswith("marker metadata vrnt_hapref not carried")): hit.append(F_HAP)
-        elif name_in and c.startswith("progeny are not in cross-configuration order"): hit.append(F_NAME)
-        else: return None
-    return F_NAME if F_NAME in hit else F_HAP
+    if len(nm) != len(case["xconfig"]) or len(np_) != len(case["xconfig"]): return None
+    N = sum(a * b for a, b in zip(nm, np_))
+    if 0 <= case["pc"] < 10 ** 7 <= case["pc"] + N - 1 and all(c.startswith("progeny are not in cross-configuration order") for c in clauses):
+        return F_NAME
+    return None
 
 def nontrivial(case, out):
     if "exc" in out or "error" in out: return False
+    if case.get("big"):                                  # a crossover fired somewhere: some chromosome has more than one run
+        ns = out.get("nseg") or []
+        return any(n > 1 for layer in ns for n in (layer if isinstance(layer, list) else [layer]))
     xo = case["xoprob"]; p = len(xo)
     def fired(shapes):
         pos = 0
@@ -690,12 +806,18 @@ def nontrivial(case, out):
         if len(set(haps)) >= 2: differ = True
     return differ and fired(out["shapes"])
 
+def _size_bucket(n):
+    return "> 2^22" if n > 2 ** 22 else ("2^16..2^22" if n >= 2 ** 16 else "< 2^16")
+
 def describe(case, out):
     if case["kind"] == "util":
-        return {"target": case["module"] + "_" + case["fn"], "rows": min(len(case["sel"]), 9), "markers": len(case["xoprob"])}
+        return {"target": case["module"] + "_" + case["fn"], "rows": min(len(case["sel"]), 9), "markers": min(len(case["xoprob"]), 25),
+                "draws_per_call": _size_bucket(len(case["sel"]) * len(case["xoprob"]))}
     nm, np_ = _counts(case)
     N = sum(a * b for a, b in zip(nm, np_)) if len(nm) == len(np_) else -1
-    return {"target": case["proto"], "ncross": len(case["xconfig"]), "nself": case["nself"], "markers": len(case["xoprob"]),
+    rows = max([sum(nm), N] if len(nm) == len(np_) else [0])
+    return {"target": case["proto"], "ncross": len(case["xconfig"]), "nself": case["nself"], "markers": min(len(case["xoprob"]), 25),
+            "draws_per_call": _size_bucket(rows * len(case["xoprob"])),
             "ntaxa": len(case["geno"][0]), "progeny": "0" if N == 0 else ("1-4" if N <= 4 else ("5-12" if N <= 12 else "13+")),
             "counts": ("scalar" if isinstance(case["nmating"], int) else "array") + "/" + ("scalar" if isinstance(case["nprogeny"], int) else "array"),
             "draws": "pcg64" if case.get("real_rng") is not None else "scripted", "raised": "error" in out or "exc" in out,
@@ -705,7 +827,7 @@ def describe(case, out):
 def shrink(case, fails):
     import copy
     cur = copy.deepcopy(case)
-    if cur["kind"] != "proto": return cur
+    if cur["kind"] != "proto" or cur.get("big"): return cur      # a size-dependent failure disappears when shrunk
     def still(t):
         """still failing, and still not a known finding"""
         try: o = run_impl(t)
